@@ -10,11 +10,11 @@ CHECKS = {
   note="Trusted base: library model of which builtin operations raise (sa/partial.py), Python's structured control flow; resource-limit errors (RecursionError/MemoryError) declined.",
   technique="abstract interpretation (stack-depth typestate) + guard-dominance exception-escape analysis over the AST"),
  "C15": dict(
-  text="Exception-escape fixpoint over the call graph of get_nodes()/exists() plus discharge of every partial operation (two-sided bounds, presence tests, handlers, loop headers, entry invariants proven at all call sites, listed shape invariants) and type-safety of ordering / `in` / dict-key uses. Decides the 'never a foreign exception' clause for all inputs reaching each construct; RecursionError on deep documents is declined. The (segment type, attributes) pairs the dispatcher's exhaustive ladder relies on are protected by the parser re-arm rule (C15-D1b). Inside a branch taken on the unwrapped form of its input a keyword search unwraps an element before using it as a mapping.",
+  text="Exception-escape fixpoint over the call graph of get_nodes()/exists() plus discharge of every partial operation (two-sided bounds, presence tests, handlers, loop headers, entry invariants proven at all call sites, listed shape invariants) and type-safety of ordering / `in` / dict-key uses. Decides the 'never a foreign exception' clause for all inputs reaching each construct; RecursionError on deep documents is declined. The (segment type, attributes) pairs the dispatcher's exhaustive ladder relies on are protected by the parser re-arm rule (C15-D1b). Inside a branch taken on the unwrapped form of its input a keyword search unwraps an element before using it as a mapping. No `.join()` ranges over unconverted document data.",
   note="Trusted base: library model (sa/partial.py), ruamel shape facts (merge entries are pairs, anchor names are str), ConsolePrinter and value-wrapping helpers outside the closure.",
   technique="interprocedural exception-escape analysis + guard-fact discharge of partial operations (linear bounds, presence, entry invariants)"),
  "C09": dict(
-  text="Effect (purity) analysis of the whole read path with a freshness lattice and interprocedural mutation summaries: no mutation site may have a possibly-document receiver; in the optional-match driver every document mutation is dominated by the no-match test and has one of the three tail-creation forms with the padding loop in linear normal form. Decides the structural necessary conditions for all inputs; the value-level frame condition is declined. The match counter is incremented on every path through one candidate's handling and never reset; padded list slots are built per iteration. A set member is compared with segment text only after its tag wrapper is removed.",
+  text="Effect (purity) analysis of the whole read path with a freshness lattice and interprocedural mutation summaries: no mutation site may have a possibly-document receiver; in the optional-match driver every document mutation is dominated by the no-match test and has one of the three tail-creation forms with the padding loop in linear normal form. Decides the structural necessary conditions for all inputs; the value-level frame condition is declined. The match counter is incremented on every path through one candidate's handling and never reset; padded list slots are built per iteration. A set member is compared with segment text only after its tag wrapper is removed. The `*` dispatcher pre-filters children exactly when a segment follows (all path lengths 1..4 x positions).",
   note="Trusted base: MUTATORS and FRESH_CALLS tables (which methods mutate, which calls return new objects); ConsolePrinter outside the closure.",
   technique="interprocedural effect/purity analysis with freshness lattice + guard dominance over the AST"),
  "C02": dict(
@@ -22,63 +22,63 @@ CHECKS = {
   note="Trusted base: loop headers (enumerate/items/iteration) and subscripts give an element's key; YAMLPath '+' copies (checked).",
   technique="construction-site / call-site consistency analysis (derivation of node from container+key, reaching definitions), mutation-site classification, partial evaluation of the parser per character"),
  "C12": dict(
-  text="The complete operator x haystack-kind x needle-kind decision table (270 cells) of Searches.search_matches is extracted by partial evaluation of its AST and compared cell by cell with an oracle table written from the documented rules; typed_value's boolean spellings and caught failures, exception escape, and the XOR truth table of each inversion predicate are decided structurally. Exhaustive over the finite kind lattice; Python's operator semantics and literal_eval's classification are the trusted base. Every result yielded by the search handler must be governed by such a predicate.",
+  text="The complete operator x haystack-kind x needle-kind decision table (450 cells) of Searches.search_matches is extracted by partial evaluation of its AST and compared cell by cell with an oracle table written from the documented rules; typed_value's boolean spellings and caught failures, exception escape, and the XOR truth table of each inversion predicate are decided structurally. Exhaustive over the finite kind lattice; Python's operator semantics and literal_eval's classification are the trusted base. Every result yielded by the search handler must be governed by such a predicate. The table covers container-valued haystacks (450 cells); regex compilation may raise re.error and OverflowError.",
   note="Trusted base: Python comparison operators, ast.literal_eval's classification of text, re.compile/.search; bool is a subtype of int.",
   technique="partial evaluation / decision-table extraction compared with an oracle table; truth-table evaluation of inversion predicates"),
  "C16": dict(
-  text="Path-sensitive three-valued abstract interpretation of every exit-status variable in the seven tools (a failure code is never overwritten by a possibly-zero value; helper statuses are never dropped), failure recording in every library-exception handler and not-loaded branch, yaml-get / yaml-diff tool tables, loader agreement between file and stdin, never-returning critical(), console-script resolution. These are code paths no passing test executes; stdout content equality is declined. Each value arm of yaml-set hands the supplied text on unchanged (a value file loses trailing white-space only).",
+  text="Path-sensitive three-valued abstract interpretation of every exit-status variable in the seven tools (a failure code is never overwritten by a possibly-zero value; helper statuses are never dropped), failure recording in every library-exception handler and not-loaded branch, yaml-get / yaml-diff tool tables, loader agreement between file and stdin, never-returning critical(), console-script resolution. These are code paths no passing test executes; stdout content equality is declined. Each value arm of yaml-set hands the supplied text on unchanged (a value file loses trailing white-space only). Every keyword passed into a **kwargs catch-all of a tool helper is read there; no shared mutable default in the tools. The alias-option table of yaml-paths main() per IncludeAliases member; shared option destinations; the arms of the multi-document loader agree on the fallback document (known finding).",
   note="Trusted base: sys.exit never returns; Python structured control flow; argparse attributes unmodelled.",
   technique="abstract interpretation of exit-state variables ({zero, non-zero, either}) over structured control flow + handler/branch obligation rules"),
  "C17": dict(
-  text="Typestate over each tool's control flow (clean/written with interprocedural writes-files and may-exit summaries; backup-flag x copied over each writer), zero-exit-state guard of the yaml-merge write, refusal of an existing --output in validation, ordering of the yaml-set restore path, and an abstract fault-point enumeration: the ordered file-effect sequences extracted from the writers' code for each flag valuation are interpreted over an abstract file state and 'target intact or backup complete' is checked after a failure at every step. Interprets code structure for every exit path; executes nothing. The restore may rewrite the target only after the failed writer's handle is closed. No tool re-binds the parsed --backup option.",
+  text="Typestate over each tool's control flow (clean/written with interprocedural writes-files and may-exit summaries; backup-flag x copied over each writer), zero-exit-state guard of the yaml-merge write, refusal of an existing --output in validation, ordering of the yaml-set restore path, and an abstract fault-point enumeration: the ordered file-effect sequences extracted from the writers' code for each flag valuation are interpreted over an abstract file state and 'target intact or backup complete' is checked after a failure at every step. Interprets code structure for every exit path; executes nothing. The restore may rewrite the target only after the failed writer's handle is closed. No tool re-binds the parsed --backup option. Keyword coupling of the tool helpers; whole-document writes open in a truncating mode; the refusal phrase is carried by every reachable raise of the class.",
   note="Trusted base: open('w') truncates, copy2 completes or leaves a partial destination, remove deletes; byte identity of the copy is shutil's.",
   technique="typestate / must-precede analysis over structured control flow + abstract interpretation of extracted file-effect sequences (static fault-point enumeration)"),
  "C18": dict(
-  text="Mode routing by partial evaluation of merge_docs per MultiDocModes member; loop-shape comparison of the condense-all and matrix drivers with the mode definitions; and a complete small-domain evaluation of merge-across's guard ladder by the partial evaluator over all stream-length pairs 0..4 x 0..4 and every index (merge exactly below min(len), append exactly in [len(lhs), len(rhs)), subscripts in range). Decides the number/order clause; document content is C05's declined part. The lone-stream condense step's counter is incremented only after a call of merge_docs on the same path.",
+  text="Mode routing by partial evaluation of merge_docs per MultiDocModes member; loop-shape comparison of the condense-all and matrix drivers with the mode definitions; and a complete small-domain evaluation of merge-across's guard ladder by the partial evaluator over all stream-length pairs 0..4 x 0..4 and every index (merge exactly below min(len), append exactly in [len(lhs), len(rhs)), subscripts in range). Decides the number/order clause; document content is C05's declined part. The lone-stream condense step's counter is incremented only after a call of merge_docs on the same path. A Merger wraps its document as loaded; the loader's fallback document is governed by a flag set before every yield of the stream loop. merge_with skips only a null right-hand document.",
   note="Trusted base: Python range/slice semantics; stream lengths fixed during merge_across except for the documented appends.",
   technique="partial evaluation per enum member + small-domain evaluation of loop guards by the partial evaluator; loop-shape rules"),
  "C19": dict(
-  text="Normal form of the marker predicate, key typestate of the rotation loop (old pair before decrypt, new pair before re-encrypt), dominance of the seen-anchor skip, changed-flag guard and backup ordering of the file effects, coverage and escaping of the discovery recursion, non-zero state in both EYAML handlers. Structural necessary conditions for every document; the external cipher is out of reach. Between the decrypt tool's stdout and the encrypt tool's stdin the plaintext may only lose trailing whitespace; the seen-anchor list starts empty for every file. The eyaml tool is driven through byte pipes (no text-mode option).",
+  text="Normal form of the marker predicate, key typestate of the rotation loop (old pair before decrypt, new pair before re-encrypt), dominance of the seen-anchor skip, changed-flag guard and backup ordering of the file effects, coverage and escaping of the discovery recursion, non-zero state in both EYAML handlers. Structural necessary conditions for every document; the external cipher is out of reach. Between the decrypt tool's stdout and the encrypt tool's stdin the plaintext may only lose trailing whitespace; the seen-anchor list starts empty for every file. The eyaml tool is driven through byte pipes (no text-mode option). The skip key is the matched value's own anchor; the rotated file is written through a truncating open. The UTC-offset delta of a constructed timestamp is negated as a whole.",
   note="Trusted base: external eyaml binary and its command protocol; ruamel dump.",
   technique="typestate / must-precede rules and normal-form matching over the AST"),
  "C03": dict(
-  text="Guard-dominance analysis of every store of the replacement node in the whole-document reference-replacement routine (identity plus position-or-anchor; sibling branches agree), sole-writer analysis of the set_value call graph, anchor-preservation of every constructor in make_new_node, conversion of ValueError at the call site. Necessary conditions of the frame property on every path; which scalars share an object is an input fact and is declined. Tail creation on the write path must give every padded list slot its own freshly built node (C03-D2b). Twin constructor arms (anchored / un-anchored) pass the same value arguments and stand under the same guards.",
+  text="Guard-dominance analysis of every store of the replacement node in the whole-document reference-replacement routine (identity plus position-or-anchor; sibling branches agree), sole-writer analysis of the set_value call graph, anchor-preservation of every constructor in make_new_node, conversion of ValueError at the call site. Necessary conditions of the frame property on every path; which scalars share an object is an input fact and is declined. Tail creation on the write path must give every padded list slot its own freshly built node (C03-D2b). Twin constructor arms (anchored / un-anchored) pass the same value arguments and stand under the same guards. The INT arm converts with int() (never through float()); set members are replaced by identity; no mutable default / class-level container carries state between operations. _update_node hands value, format and tag to make_new_node unmodified.",
   note="Trusted base: ruamel container API; object identity is the routine's notion of 'the matched node and its aliases'.",
   technique="guard-dominance (identity / position / anchor) analysis of store sites + effect-based sole-writer analysis"),
  "C04": dict(
-  text="Gather-then-delete ordering, reversed traversal, confinement of every mutation of _delete_nodes to the current item's (parent, parentref) under a presence/bounds guard (merge-key branch included), root refusal without prior mutation, guarded partial operations. A node matched more than once is deleted once: every deleting arm follows the already-gone test on (parent object, parentref), records its item first, and the record is shared with the recursive calls (C04-D10).",
+  text="Gather-then-delete ordering, reversed traversal, confinement of every mutation of _delete_nodes to the current item's (parent, parentref) under a presence/bounds guard (merge-key branch included), root refusal without prior mutation, guarded partial operations. A node matched more than once is deleted once: every deleting arm follows the already-gone test on (parent object, parentref), records its item first, and the record is shared with the recursive calls (C04-D10). The outermost call refuses a gathered root in a pre-pass before anything is deleted (same virtual-result tests and container kinds as the loop); the merge reference deleted is the enumeration index of the merge list; no shared mutable default.",
   note="Trusted base: coordinates satisfy C02; ruamel merge entries are (index, node).",
   technique="mutation-site confinement + guard-dominance + loop-order rules over the AST"),
  "C01": dict(
-  text="Partial evaluation of the segment dispatcher per PathSegmentTypes member (routing, exhaustiveness, unfiltered relay), sibling agreement of the required/optional drivers and the public entry points (same generator, same argument roles, depth+1, relay), separator non-interference, XOR truth table of every match test and the haystack/yield table of the search handler per container branch, two-sided index bounds. Decides the structural clauses for all inputs; the extensional equality of the selected node set with the reference semantics is declined.",
+  text="Partial evaluation of the segment dispatcher per PathSegmentTypes member (routing, exhaustiveness, unfiltered relay), sibling agreement of the required/optional drivers and the public entry points (same generator, same argument roles, depth+1, relay), separator non-interference, XOR truth table of every match test and the haystack/yield table of the search handler per container branch, two-sided index bounds. Decides the structural clauses for all inputs; the extensional equality of the selected node set with the reference semantics is declined. A match test inside an element loop judges a flag assigned for that element on every path (definite assignment per iteration); quoted segment text is never rewritten as a wildcard. No arm of an element loop decides the verdict by a constant; index guards are judged for the requested index when the used index is computed from it.",
   note="Trusted base: generator relay semantics; the parser stores the term objects for SEARCH/KEYWORD_SEARCH/COLLECTOR segments (C08).",
   technique="partial evaluation per enum member + sibling-agreement and table rules over the AST; truth-table evaluation"),
  "C13": dict(
-  text="Keyword dispatcher specialised per PathSearchKeywords member; per-branch summaries of the max/min scans (operator, operand roles, discard-before-reset, ties, inversion) compared with the definitions and with each other; unique's size predicates evaluated over group sizes 0..4 by the partial evaluator; distinct's first-of-group; group keying; has_child's XOR match tests; parent's bounded climb behind the root refusal; name's parentref; parameter-count refusals evaluated over counts 0..3. Which members win for given values is run-time and declined.",
+  text="Keyword dispatcher specialised per PathSearchKeywords member; per-branch summaries of the max/min scans (operator, operand roles, discard-before-reset, ties, inversion) compared with the definitions and with each other; unique's size predicates evaluated over group sizes 0..4 by the partial evaluator; distinct's first-of-group; group keying; has_child's XOR match tests; parent's bounded climb behind the root refusal; name's parentref; parameter-count refusals evaluated over counts 0..3. Which members win for given values is run-time and declined. The refusal of the hash branch is reached only for a member that is no hash; the running extreme of min/max is never null.",
   note="Trusted base: Searches.search_matches implements the operators (C12); dict insertion order.",
   technique="partial evaluation per enum member + scan-loop summarisation and sibling comparison + small-domain predicate evaluation"),
  "C05": dict(
-  text="Policy tables extracted by partial evaluation of every merger routine per policy-enum member (arrays, Arrays-of-Hashes, sets, hashes at the merge point and below hash keys, per value kind) and compared with the documented meaning of each member; precedence ladders of the five MergerConfig accessors (rule > CLI > config default > built-in default, one option name, one enum class, documented defaults); every raise is MergeException and every impossible kind combination is refused; from_str normal form across nine enums. Equality of the merged document with the reference result is declined. The DEEP identity-key selection must range over the left list being appended to; the per-path rule lookup (MergerConfig and DifferConfig) must compare exactly node, parent and parentref. Inherited (merge-key) entries of the left hash are removed before the first membership test on it; the Array-of-Hashes identity key is returned as it is.",
+  text="Policy tables extracted by partial evaluation of every merger routine per policy-enum member (arrays, Arrays-of-Hashes, sets, hashes at the merge point and below hash keys, per value kind) and compared with the documented meaning of each member; precedence ladders of the five MergerConfig accessors (rule > CLI > config default > built-in default, one option name, one enum class, documented defaults); every raise is MergeException and every impossible kind combination is refused; from_str normal form across nine enums. Equality of the merged document with the reference result is declined. The DEEP identity-key selection must range over the left list being appended to; the per-path rule lookup (MergerConfig and DifferConfig) must compare exactly node, parent and parentref. Inherited (merge-key) entries of the left hash are removed before the first membership test on it; the Array-of-Hashes identity key is returned as it is. Both sides of the UNIQUE membership test are normalised alike; configuration lookups are required-match queries; the unmatched-rule handler takes the whole exception family. The list mergers iterate a snapshot of the right operand; no call of a merger discards the returned node; the first-key fallback never replaces a configured key; the configuration parser keeps option-name folding.",
   note="Trusted base: ruamel container API; configparser/argparse deliver option strings.",
   technique="partial evaluation per enum member (decision-table extraction) + ladder/normal-form comparison across sibling functions"),
  "C10": dict(
-  text="The anchor-conflict dispatcher is specialised per AnchorConflictResolutions member and each residual must be the documented action with the documented argument roles (which document is edited, which node replaces which); guard by inequality and unification of equal anchors; loop-exit-witness postcondition of the unique-name routine and the name pool handed to it; agreement of the three anchor tree walkers on container kinds, keys and values. Alias object-graph behaviour and the emitter are declined. Every member of a container is replaced or recursed into on every path of the three anchor walkers (flow per member loop). No second judge of 'conflict' outside the equality-guarded dispatch; names handed out in one pass are pairwise distinct.",
+  text="The anchor-conflict dispatcher is specialised per AnchorConflictResolutions member and each residual must be the documented action with the documented argument roles (which document is edited, which node replaces which); guard by inequality and unification of equal anchors; loop-exit-witness postcondition of the unique-name routine and the name pool handed to it; agreement of the three anchor tree walkers on container kinds, keys and values. Alias object-graph behaviour and the emitter are declined. Every member of a container is replaced or recursed into on every path of the three anchor walkers (flow per member loop). No second judge of 'conflict' outside the equality-guarded dispatch; names handed out in one pass are pairwise distinct. scan_for_anchors registers the anchor of a non-container node it is called on. merge_with resolves anchor conflicts before it queries (and possibly creates) the merge targets.",
   note="Trusted base: ruamel.yaml's representation of anchors/aliases as shared objects.",
   technique="partial evaluation per enum member with argument-role comparison + loop postcondition + sibling traversal agreement"),
  "C11": dict(
-  text="Root re-binding only under is_root, target discovery through the optional-match query seeded with the right document, exhaustive right-root-kind dispatch with (merge point, target, right document), MergeException when nothing merged, re-basing of rule and key paths on the merge point, zero-exit-state guard of the yaml-merge write. Value equality of the complement of the target subtrees is declined. strip_path_prefix is folded over a table of (path, prefix) texts: remainder at a segment boundary, the merge point itself to the empty path, other paths unchanged. Every NodeCoords built for a policy lookup wraps a node of the incoming document.",
+  text="Root re-binding only under is_root, target discovery through the optional-match query seeded with the right document, exhaustive right-root-kind dispatch with (merge point, target, right document), MergeException when nothing merged, re-basing of rule and key paths on the merge point, zero-exit-state guard of the yaml-merge write. Value equality of the complement of the target subtrees is declined. strip_path_prefix is folded over a table of (path, prefix) texts: remainder at a segment boundary, the merge point itself to the empty path, other paths unchanged. Every NodeCoords built for a policy lookup wraps a node of the incoming document. Below the root a merge result that is not the left operand is stored at the target's (parent, parentref); every match of the merge-point query is kept as a target.",
   note="Trusted base: C09 (only the missing tail is created by the target query).",
   technique="guard dominance + exhaustive-dispatch and dataflow-role rules over the AST; abstract exit-state interpretation for the write guard"),
  "C06": dict(
-  text="Shape rule for all DiffEntry construction sites (ADD/DELETE/SAME/CHANGE argument shapes under the right equality facts; path names the reported element's own key or index), partial evaluation of the kind dispatcher over all 16 kind pairs and of the two mode dispatchers per enum member, absent-vs-null rule for pairing loops, both-sides rule for emptiness branches, exit-status non-interference and DifferConfig ladders. The Differ has no library-level test at all; completeness/exactly-once over documents is declined. No comparer may decide on the truthiness of a document value or on `is None` of a defaultless .get() (taint from Any-annotated parameters; positive sample on every run). Positions are carried from enumeration (no `.index(value)`); every iteration of a pairing loop reports the pair; `!=` is never applied to document values (CommentedMap's `!=` is order-sensitive, its `==` is not).",
+  text="Shape rule for all DiffEntry construction sites (ADD/DELETE/SAME/CHANGE argument shapes under the right equality facts; path names the reported element's own key or index), partial evaluation of the kind dispatcher over all 16 kind pairs and of the two mode dispatchers per enum member, absent-vs-null rule for pairing loops, both-sides rule for emptiness branches, exit-status non-interference and DifferConfig ladders. The Differ has no library-level test at all; completeness/exactly-once over documents is declined. No comparer may decide on the truthiness of a document value or on `is None` of a defaultless .get() (taint from Any-annotated parameters; positive sample on every run). Positions are carried from enumeration (no `.index(value)`); every iteration of a pairing loop reports the pair; `!=` is never applied to document values (CommentedMap's `!=` is order-sensitive, its `==` is not). The kind-clash arm records an entry on every path; rule lookups are required-match queries; no class-level result list. Identity comparisons only against None, a sentinel or an enum member.",
   note="Trusted base: itertools.zip_longest, == on ruamel data.",
   technique="construction-site shape rules + partial evaluation (decision tables) + sentinel/one-sided-test rules over the AST"),
  "C07": dict(
-  text="Escaping taint of every string concatenated into a reported path (only separators, literals, integer indexes and escape_path_section(text, own pathsep)); XOR truth table of each match test; complete decision table of Searches.search_anchor over (anchored, seen, search_anchors, include_aliases, matched, inverted) by partial evaluation; outcome class (skip / emit / search) of the search loop per AnchorMatches member for the sequence, map-value, map-key and set branches; duplicate check before recording. None of this code is executed by the baseline. Soundness/completeness over documents and re-resolution are declined. Every visited node is classified (anchor recorded) on every path through its loop iteration, and the expansion helper excludes aliases only under the negated option handed to that classification (truth table). Both walkers iterate the same entries of a mapping under every setting of the alias options; the separator between parent path and child key is unconditional.",
+  text="Escaping taint of every string concatenated into a reported path (only separators, literals, integer indexes and escape_path_section(text, own pathsep)); XOR truth table of each match test; complete decision table of Searches.search_anchor over (anchored, seen, search_anchors, include_aliases, matched, inverted) by partial evaluation; outcome class (skip / emit / search) of the search loop per AnchorMatches member for the sequence, map-value, map-key and set branches; duplicate check before recording. None of this code is executed by the baseline. Soundness/completeness over documents and re-resolution are declined. Every visited node is classified (anchor recorded) on every path through its loop iteration, and the expansion helper excludes aliases only under the negated option handed to that classification (truth table). Both walkers iterate the same entries of a mapping under every setting of the alias options; the separator between parent path and child key is unconditional. The seen-anchors record is forwarded as the caller's own list; the expansion helper has a branch (and descent tests) for every container kind the search knows. Merge-key references are reported under the value-alias flag alone; shared option destinations get their default from set_defaults().",
   note="Trusted base: escape_path_section's alphabet (C02-D5); search_matches (C12).",
   technique="taint-style composition rule for path text + partial evaluation (decision tables) + truth-table evaluation"),
  "C08": dict(
-  text="The parser's operator automaton is extracted by partial evaluation of the bracket branch per character and prior state and fed with the symbols that the enums' own __str__ ladders emit (9 search operators, 3 collector operators, 7 keywords): each must be read back as the same member; the stringifier is specialised per segment kind (non-empty text, uniform separator handling); escape agreement between writer and reader per lexical context (key, search term, regex); equality through one forced notation. Text-level round-trip identity over all segment sequences is declined. Parser state consumed by a recorded segment must be re-armed before the next character (flow over the loop body); append() replaces the text only when it is empty (test folded over sample texts). Every element read of a demarcation stack reads its top; the stringifier's key alphabet contains the parser's base-state specials.",
+  text="The parser's operator automaton is extracted by partial evaluation of the bracket branch per character and prior state and fed with the symbols that the enums' own __str__ ladders emit (9 search operators, 3 collector operators, 7 keywords): each must be read back as the same member; the stringifier is specialised per segment kind (non-empty text, uniform separator handling); escape agreement between writer and reader per lexical context (key, search term, regex); equality through one forced notation. Text-level round-trip identity over all segment sequences is declined. Parser state consumed by a recorded segment must be re-armed before the next character (flow over the loop body); append() replaces the text only when it is empty (test folded over sample texts). Every element read of a demarcation stack reads its top; the stringifier's key alphabet contains the parser's base-state specials. Quoted text is recorded verbatim; a path's separator is stored only from a parameter, AUTO or the object's own text. pop() is folded over keys ending in an escaped separator in both notations.",
   note="Trusted base: the parser consumes one character per loop iteration with the flags found by role discovery; Enum member identity.",
   technique="automaton extraction by partial evaluation compared with the writer's symbol tables; alphabet set comparison; branch-order rule"),
 }
